@@ -8,6 +8,8 @@ import (
 	"flag"
 	"fmt"
 	"os"
+	"strconv"
+	"strings"
 	"time"
 
 	"berty.tech/go-ipfs-log/entry"
@@ -15,6 +17,9 @@ import (
 )
 
 var startCase, onlyCase, maxOps = 0, -1, -1
+
+// dropOps: operation indices of a core history that are left out (delta debugging)
+var dropOps = map[int]bool{}
 
 // skipCase says whether case index h is excluded by -start / -only.
 func skipCase(h int) bool {
@@ -49,7 +54,13 @@ func main() {
 	fs.IntVar(&startCase, "start", 0, "first case index to run")
 	fs.IntVar(&onlyCase, "only", -1, "run only this case index")
 	fs.IntVar(&maxOps, "maxops", -1, "core: truncate every history after this many operations (shrinking)")
+	drop := fs.String("dropops", "", "core: comma-separated operation indices to leave out (shrinking, with -only)")
 	_ = fs.Parse(os.Args[2:])
+	for _, t := range strings.Split(*drop, ",") {
+		if k, err := strconv.Atoi(strings.TrimSpace(t)); err == nil {
+			dropOps[k] = true
+		}
+	}
 
 	var f *os.File = os.Stdout
 	if *outPath != "-" {
